@@ -136,6 +136,15 @@ def curves(draw, pmin=0, pmax=4, kmax=4, rational=None, dim=None, nums=("frac",)
             P = [x * tiny for x in P] if not isinstance(P[0], list) else [[c * tiny] + list(x[1:]) for x in P for c in [x[0]]]
         elif ps != 1:
             P = [x * ps for x in P] if not isinstance(P[0], list) else [[c * ps for c in x] for x in P]
+        if w is not None:
+            # weights are homogeneous: the same curve with all weights tiny, huge, or nearly equal to each other
+            wk = draw(st.sampled_from(["same", "same", "tiny", "huge", "nearly-equal"]))
+            if wk == "tiny":
+                w = [x / 10 ** 10 for x in w]
+            elif wk == "huge":
+                w = [x * 10 ** 10 for x in w]
+            elif wk == "nearly-equal":
+                w = [1 + x / 10 ** 11 for x in w]
     out = {"U": U, "p": p, "P": P, "w": w, "num": num}
     if isinstance(P[0], list) and draw(st.integers(0, 3)) == 0:
         # the control points handed over as a list of separate arrays; equal points are the same object
